@@ -227,6 +227,7 @@ type c06cfg struct {
 func c06Scenario(c c06cfg) *Scenario {
 	sc := &Scenario{Name: fmt.Sprintf("C06-S pre=%v failing=%q other=%q", c.pre, c.failing, c.other), Horizon: 90 * time.Second}
 	var fileAfter, liveAfter, restoredAfter string
+	var listedNames, modelNames string
 	var rejected []string
 	var rsetErr string
 	var hadRollout bool
@@ -264,6 +265,10 @@ func c06Scenario(c c06cfg) *Scenario {
 				probedLate[e.Target]++
 			}
 		}
+		if l, _ := w.List(); l != nil {
+			listedNames = strings.Join(sortedKeys(l), ",")
+		}
+		modelNames = strings.Join(sortedKeys(oh.M.Services), ",")
 		fileAfter = canonicalState(w.State)
 		liveAfter = routerSummary(w.Router)
 		fb, ferr := os.ReadFile(w.State)
@@ -283,6 +288,9 @@ func c06Scenario(c c06cfg) *Scenario {
 			if probedLate[t] > 0 {
 				vs = append(vs, Violation{"C06", "probes-to-rejected-by-failed-command-target", fmt.Sprintf("%s probed %d times after both commands returned", t, probedLate[t])})
 			}
+		}
+		if listedNames != modelNames {
+			vs = append(vs, Violation{"C06", "services-changed-by-failed-command", fmt.Sprintf("after the failed %q and %q the proxy lists {%s}; the failed command changes nothing, so it should list {%s}", c.failing, c.other, listedNames, modelNames)})
 		}
 		if restoredAfter != liveAfter {
 			vs = append(vs, Violation{"C06", "saved-state-differs-from-configuration-after-failed-command", fmt.Sprintf("file restores to {%s}, in force {%s}", restoredAfter, liveAfter)})
@@ -316,6 +324,12 @@ func c06Configs() []c06cfg {
 			for _, o := range others {
 				cfgs = append(cfgs, c06cfg{f, o, pre})
 			}
+		}
+	}
+	// the failing command is the first deploy of a service that another operator deploys successfully meanwhile
+	for _, f := range []string{"deploy s3 h=c.example.com p=/ bad=unhealthy-all", "deploy s3 h=c.example.com p=/ n=2 bad=unhealthy-one"} {
+		for _, o := range []string{"deploy s3 h=c.example.com p=/", "deploy s3 h=d.example.com p=/ n=2"} {
+			cfgs = append(cfgs, c06cfg{f, o, pres[0]})
 		}
 	}
 	return cfgs
